@@ -164,7 +164,7 @@ func TestVerifC03(t *testing.T) {
 					if results[i].first < 0 {
 						results[i].first = off
 					}
-					results[i].last = off
+					atomic.StoreInt64(&results[i].last, off)
 					results[i].count++
 				}
 			}(i, rd, expect)
@@ -196,6 +196,47 @@ func TestVerifC03(t *testing.T) {
 			if results[i].last < end {
 				setViol("lost-wakeup", fmt.Sprintf("reader %d (start %d) stopped at offset %d although the high watermark covers %d", i, results[i].start, results[i].last, end))
 			}
+		}
+		// lockstep phase: every reader is caught up and about to park (or parked) on the current
+		// HW; one message is appended and the HW moved onto it, racing with the readers'
+		// registration as waiters.  This HW change is the only one until every reader has the
+		// message, so a reader that registers against the old HW after the change stays blocked.
+		l.SetReadonly(false)
+		steps := vEnvInt("VERIF_STEPS", 400)
+		violMu.Lock()
+		clean := viol == ""
+		violMu.Unlock()
+		for step := 0; step < steps && clean; step++ {
+			appendN(1)
+			end = l.NewestOffset()
+			for spin := r.intn(200); spin > 0; spin-- {
+				_ = atomic.LoadInt64(&appended)
+			}
+			l.SetHighWatermark(end)
+			deadline = time.Now().Add(2 * time.Second)
+			got := false
+			for !got && time.Now().Before(deadline) {
+				got = true
+				for i := range results {
+					if atomic.LoadInt64(&results[i].last) < end {
+						got = false
+					}
+				}
+				if !got && time.Since(deadline.Add(-2*time.Second)) > 200*time.Microsecond {
+					time.Sleep(50 * time.Microsecond)
+				}
+			}
+			if !got {
+				for i := range results {
+					if results[i].last < end {
+						setViol("lost-wakeup", fmt.Sprintf("reader %d had consumed up to %d and was waiting for the high watermark; it moved to %d (the only change) and the reader was not woken", i, results[i].last, end))
+					}
+				}
+				clean = false
+			}
+			statsMu.Lock()
+			stats["lockstep-hw-moves"]++
+			statsMu.Unlock()
 		}
 		cancel()
 		rwg.Wait()
